@@ -71,6 +71,7 @@ FAMILIES = {
     "dip_atom": {"base": "2018_JCP_149_064113/dipoles/atom_factors.ini", "n": (2, 5), "cost": 1},
     "dip_atom_ff": {"base": "2018_JCP_149_064113/dipoles/atom_factors.ini", "n": (2, 5), "cost": 1,
                     "factor_swarm": True},
+    "chain_ff": {"base": "harness:chain_molecules", "n": (2, 3), "cost": 2, "lattice": True, "factor_swarm": "chain"},
     "dip_motion_ff": {"base": "2018_JCP_149_064113/dipoles/dipole_motion.ini", "n": (2, 4), "cost": 1,
                       "factor_swarm": "motion"},
     "dip_in": {"base": "2018_JCP_149_064113/dipoles/dipole_factors_inside_first.ini", "n": (2, 5), "cost": 1},
@@ -123,7 +124,22 @@ def generate(rng, family, package_dir, events=2000, vary=True, shipped_n=False):
     for section, options in spec.get("cheap", {}).items():
         if section in sections:
             set_out.setdefault(section, {}).update(options)
-    if spec.get("factor_swarm") and vary:
+    if spec.get("factor_swarm") == "chain" and vary:
+        # molecules of six point masses: bonds along the chain, random subsets of the 36 pairs between two molecules
+        # for the two pair factor types (indices of the second molecule have two digits from 10 on)
+        def pair(a, b):
+            return "[%d, %d]" % ((a, b) if rng.random() < 0.7 else (b, a))
+        lines = [pair(k, k + 1) + ", Harmonic" for k in range(5)]
+        cross = [(a, 6 + b) for a in range(6) for b in range(6)]
+        for label in ("Repulsive", "Coulomb"):
+            chosen = rng.sample(cross, rng.randint(3, 10))
+            if not any(b >= 10 for _, b in chosen):
+                chosen.append((rng.randrange(6), rng.choice([10, 11])))
+            lines.extend(pair(a, b) + ", " + label for a, b in chosen)
+        value = "@generated:" + ";".join(lines)
+        sections["FactorTypeMaps"]["filename"] = value
+        set_out.setdefault("FactorTypeMaps", {})["filename"] = value
+    elif spec.get("factor_swarm") and vary:
         # a generated well-formed factor file: the intra-molecular bond plus random subsets of the four inter-
         # molecular index pairs for each pair factor type
         pairs = ["[0, 2]", "[0, 3]", "[1, 2]", "[1, 3]"]
@@ -179,6 +195,15 @@ def generate(rng, family, package_dir, events=2000, vary=True, shipped_n=False):
         current = float(sections["HypercubicSetting"]["system_length"])
         factor = rng.choice([1.5, 2.5, 3.3, 1.86, 1.3, 0.8 if "atoms" in family else 1.1])
         set_out.setdefault("HypercubicSetting", {})["system_length"] = repr(round(current * factor, 6))
+    if vary and family in ("soft", "lj", "soft_disks") and rng.random() < 0.2:
+        # a dilute system: free flights that last several time units (across more than one integer time)
+        set_out.setdefault("HypercubicSetting", {})["system_length"] = repr(rng.choice([6.0, 13.7, 20.0]))
+        for section in find_section_with(sections, "chain_time"):
+            sections[section]["chain_time"] = repr(rng.choice([2.9, 4.3, 7.1]))
+            set_out.setdefault(section, {})["chain_time"] = sections[section]["chain_time"]
+        for section in find_section_with(sections, "sampling_interval"):
+            sections[section]["sampling_interval"] = repr(rng.choice([1.7, 3.3]))
+            set_out.setdefault(section, {})["sampling_interval"] = sections[section]["sampling_interval"]
     if vary:
         # the even power of the displaced (bond) potentials is free; every shipped configuration uses 2
         for section, options in sections.items():
@@ -260,14 +285,24 @@ def generate(rng, family, package_dir, events=2000, vary=True, shipped_n=False):
     faults = []
     if vary and rng.random() < 0.5:
         for _ in range(rng.randint(1, 3)):
-            faults.append({"kind": rng.choice(["scheduler_pickle", "scheduler_pickle", "state_handler_pickle"]),
+            faults.append({"kind": rng.choice(["scheduler_pickle", "scheduler_pickle", "state_handler_pickle",
+                                               "event_handlers_pickle", "event_handlers_pickle"]),
                            "at_step": rng.randrange(2, max(3, events // 2))})
+    if vary and rng.random() < 0.15:
+        # a restart storm: one kind of pickle round trip repeated every few legs
+        faults.append({"kind": rng.choice(["event_handlers_pickle", "event_handlers_pickle", "scheduler_pickle",
+                                           "state_handler_pickle"]),
+                       "at_step": rng.randrange(2, 40), "every": rng.choice([3, 7, 19, 53])})
     if spec.get("force_heap"):
         set_out.setdefault("SingleProcessMediator", {})["scheduler"] = "heap_scheduler"
     scn = {"base": base, "family": family, "set": set_out, "seed": rng.getrandbits(40), "max_events": events,
            "faults": faults, "expect_handler_shortage": shortage,
            "end_time": round(rng.choice([3.0, 10.0, 30.0, 100.0, 0.6, 7.05, 30.3, 12.1]) if vary else 50.0, 3),
            "n_roots": n}
+    if spec.get("factor_swarm") and vary:
+        # the generated factor file is well formed by construction (bonds inside the first molecule, pairs of one
+        # point mass of the first and one of the second molecule), in the format of the shipped files
+        scn["well_formed_factor_file"] = True
     if spec.get("long"):
         scn["end_time"] = 100.0
     return scn
